@@ -1,6 +1,7 @@
 import sys
 """C14 -- preprocessing order rules and auto-sorting."""
 import itertools
+import warnings
 import re
 
 from .. import common, gen_tables
@@ -316,6 +317,41 @@ def returned_lists(run, ids, req, opt):
                     theorem="C14_available_valid")
 
 
+def deprecated_entry_points(run, ids, req):
+    """the deprecated keyword `preproc_names` and the deprecated class
+    IndentationPreprocessor accept and reject exactly the same lists"""
+    from nanite import preproc
+    lists = [list(q) for r in (1, 2, 3) for q in itertools.permutations(ids, r)]
+    lists += [["compute_tip_position", "correct_force_slope",
+               "correct_tip_offset", "correct_force_offset"],
+              ["bogus_step"], []]
+    nbad = 0
+    with StubSteps(), warnings.catch_warnings():
+        warnings.simplefilter("ignore")
+        for lst in lists[:: (1 if run.tier != "quick" else 3)]:
+            exp = decl_apply_ok(lst, req)
+            for how in ("preproc_names", "class"):
+                try:
+                    if how == "preproc_names":
+                        preproc.apply(_FakeCurve(), preproc_names=list(lst),
+                                      options={})
+                    else:
+                        preproc.IndentationPreprocessor.apply(
+                            _FakeCurve(), preproc_names=list(lst))
+                    got = "ok"
+                except BaseException as e:
+                    got = _kind(e)
+                run.case({"deprecated": how, "list": lst, "apply": got},
+                         nontrivial=len(lst) >= 2, kind="apply-deprecated")
+                if got != exp and nbad < 20:
+                    nbad += 1
+                    run.failing(SITE_APPLY, f"deprecated:{how}:" + ",".join(lst),
+                                f"apply through the deprecated {how} with "
+                                f"{lst} -> {got}, expected {exp}",
+                                payload={"kind": "rerun"}, expected=exp,
+                                observed=got, theorem="C14_apply_iff")
+
+
 def check(run):
     from nanite import preproc
     run.sources = common.source_digests(["src/nanite/preproc.py"])
@@ -381,6 +417,7 @@ def check(run):
                 oracle(run, lst, im, ids, req, opt)
     history_apply(run, ids, req)
     returned_lists(run, ids, req, opt)
+    deprecated_entry_points(run, ids, req)
     # available() itself
     av = preproc.available()
     if sorted(av) != sorted(ids) or not decl_ordered(av, req, opt):
